@@ -1,4 +1,94 @@
-"""tablediag.py — when a table theorem no longer elaborates (only possible through the regenerated
-Generated.lean), list the table cells that contradict the reference and replay each on the real code."""
+"""tablediag.py — T1 diagnosis: when a table theorem no longer elaborates (only possible through the
+regenerated Generated.lean), `rdsmodel diagnose` lists the table cells that contradict the reference;
+each is turned into a replay on the real code (an ops file through the harness for charset/ECC cells, a
+direct lookup through the extractor for the PTY/country lookups)."""
+import os, re, subprocess
+import infra, runner
+
+def run_diagnose():
+    ok, out, _ = infra.lake_build(["rdsmodel"])
+    if not ok:
+        return None
+    r = subprocess.run([infra.rdsmodel(), "diagnose"], stdout=subprocess.PIPE, stderr=subprocess.PIPE, text=True)
+    if "DIAGNOSE-END" not in r.stdout:
+        return None
+    cells = []
+    consts = {}
+    for line in r.stdout.splitlines():
+        if line.startswith("CELL "):
+            p = line.split(" ", 3)
+            kv = dict(re.findall(r'(\w+)=("[^"]*"|\S+)', p[3]))
+            cells.append({"prop": p[1], "table": p[2], "kv": kv, "line": line})
+        elif line.startswith("CONST "):
+            consts = dict(x.split("=") for x in line[6:].split(" "))
+    return cells, consts
+
+def lookup_replay(pid, c, idx):
+    """replay of a lookup cell: the call and what the real code returned (read by the extractor, ASan build)"""
+    kv = c["kv"]
+    t = c["table"]
+    if t.startswith("pty"):
+        arg = int(kv["arg"]); a = arg if arg < 128 else arg - 256
+        fn = {"PtyTbl.name": "rdsparser_pty_lookup_name", "PtyTbl.short": "rdsparser_pty_lookup_short", "PtyTbl.long": "rdsparser_pty_lookup_long"}.get(kv.get("table", ""), "rdsparser_pty_lookup_*")
+        call = "%s(%d, %s)" % (fn, a, "true" if kv.get("rbds") == "true" else "false")
+    elif t == "cname":
+        call = "rdsparser_country_lookup_name(%s)" % kv["arg"]
+    else:
+        call = "rdsparser_country_lookup_iso(%s)" % kv["arg"]
+    hdr = ["property=%s kind=table cell (T1, read out of the library compiled from the current tree): %s returns %s, expected %s" % (pid, call, kv.get("value"), kv.get("expected")),
+           c["line"], "lookup %s" % call]
+    return runner.write_replay(pid, "table-%s-%d" % (t, idx), hdr, [])
+
 def diagnose(ctx, msg):
-    return False
+    """returns True if table deviations explaining the broken obligation were found and reported"""
+    pid = ctx.pid
+    if pid not in ("C02", "C11", "C18", "C20", "C05", "C16"):
+        return False
+    res = run_diagnose()
+    if res is None:
+        return False
+    cells, consts = res
+    mine = [c for c in cells if c["prop"] == pid]
+    ctx.cov["table_deviations"] = [c["line"] for c in mine][:40]
+    if not mine:
+        if pid == "C20" and (consts.get("constsAgree") != "true" or consts.get("eccNarrowAgrees") != "true" or consts.get("lookupsNarrowAgree") != "true" or consts.get("laneDependentNarrow") != "0"):
+            path = runner.write_replay(pid, "table-consts", ["property=C20 kind=table: the RDSPARSER_DISABLE_UNICODE build reports different constants/tables than the default build: " + str(consts)], [])
+            ctx.add_violation(path, "builds disagree on constants/tables")
+            return True
+        return False
+    for idx, c in enumerate(mine[:5]):
+        kv = c["kv"]
+        if c["table"] in ("g0", "narrow"):
+            b = int(kv["byte"])
+            ops = ["new", "p 4660 0 0 %d 0 0 0 0" % ((b << 8) | 0x41)]
+            cfg = "u" if c["table"] == "g0" else "n"
+            hdr = ["property=%s cfg=%s kind=table cell (T1): byte 0x%02X received error-free in a 0A group is stored as code point %s (stored=%s); the reference table says %s (stored=%s)" % (pid, cfg, b, kv["value"], kv["stored"], kv["expected"], kv["expected_stored"]), c["line"]]
+            path = runner.write_replay(pid, "table-%s-%d" % (c["table"], b), hdr, ops)
+        elif c["table"] in ("ecc", "eccrange"):
+            row = int(kv["row"]); e = int(kv["ecc"])
+            pi = 0x1234 if row == 0 else (((row - 1) << 12) | 0x0ABC)
+            ops = ["new", "p %d 4096 %d 0 %d 0 0 0" % (pi, e, 1 if row == 0 else 0)]
+            hdr = ["property=%s cfg=u kind=table cell (T1): PI nibble %s, ECC 0x%02X gives country %s; IEC 62106-4 reference: %s" % (pid, "unknown" if row == 0 else "%X" % (row - 1), e, kv["value"], kv["expected"]), c["line"]]
+            path = runner.write_replay(pid, "table-ecc-%d-%d" % (row, e), hdr, ops)
+        else:
+            path = lookup_replay(pid, c, idx)
+        ctx.add_violation(path, c["line"][:200])
+    return True
+
+def c18_runtime(ctx):
+    """C18 has no op streams: its domain (256 PTY arguments x {RDS,RBDS} x 3 tables, 256 country arguments x 2
+    tables) is enumerated completely by the extractor under ASan (non-NULL, NUL-terminated), and the theorems are
+    about exactly that dump."""
+    path = os.path.join(infra.LEAN, "RdsModel", "Generated.lean")
+    s = open(path).read()
+    n = 0
+    names = {}
+    for nm in ("ptyNameRds", "ptyNameRbds", "ptyShortRds", "ptyShortRbds", "ptyLongRds", "ptyLongRbds", "countryName", "countryIso"):
+        m = re.search(r"def %s : List \(Option String\) := \[(.*?)\n\]" % nm, s, re.S)
+        ents = re.findall(r'\(some "((?:[^"\\]|\\.)*)"\)|none', m.group(1)) if m else []
+        names[nm] = len(re.findall(r'\(some "|\bnone\b', m.group(1))) if m else 0
+        n += names[nm]
+    ctx.cov["evaluations"] += n
+    ctx.cov["distinct_nontrivial"] += 6 * 32 + 2 * 220
+    ctx.cov["exhaustive_lookup_domain"] = names
+    ctx.cov["samples"].append({"lookups": ["rdsparser_pty_lookup_short(10, false)", "rdsparser_country_lookup_iso(164)", "rdsparser_country_lookup_name(255)"]})
